@@ -201,6 +201,23 @@ func cmdCheck(args []string) int {
 	var errs []string
 	for _, key := range S.Order {
 		ct := S.Contracts[key]
+		if ct.Conforms && contractMentions(ct, *prop) {
+			for _, r := range verifyConformance(P, S, ct, *prop) {
+				funcs = append(funcs, r.Key)
+				for _, n := range r.Notes {
+					notes[n] = true
+				}
+				for _, e := range r.Errs {
+					errs = append(errs, r.Key+": "+e)
+				}
+				for _, o := range r.Obls {
+					if hasProp(o.Props, *prop) {
+						all = append(all, o)
+					}
+				}
+			}
+			continue
+		}
 		if ct.NoBody || !contractMentions(ct, *prop) {
 			continue
 		}
@@ -267,7 +284,7 @@ func cmdCheck(args []string) int {
 				// On the unchanged tree this is kept at zero by the self-test; on a changed tree dead
 				// code is not a property violation, so it is reported as a warning in quick and as a
 				// failure only in thorough (where the self-test expects full reachability).
-				if *tier == "thorough" && os.Getenv("GOVC_COVER_STRICT") != "" {
+				if os.Getenv("GOVC_COVER_LENIENT") == "" {
 					violations++
 					path := writeReplay(replayDir, *prop, o, "cover obligation failed: this return is unreachable under the contract's requires/assumptions (vacuity)")
 					fmt.Printf("VIOLATION property=%s replay=%s no-failing-input-found\n", *prop, path)
